@@ -42,6 +42,9 @@ Oracle (after every event, over the whole history):
      substitute that actually appeared, once;
  (4) mapping:lists-only-occurred-originals       mapping() lists no original that never occurred in any
      input and is not the system's own name;
+ (6) system-name:own-name-is-replaced            an occurrence of the system's FQDN / short name in a spec that does not
+     exempt host names comes out replaced - however the Cleaner learned the name (explicit fqdn argument, or resolved by
+     itself with a display_name in the configuration: the 'sysname' histories own the socket calls behind the resolution);
  (5) report:facts-file-matches-observed / report:csv-matches-observed   the rhsm facts file and the CSV
      reports written by `generate_report` (redirected into a /dev/shm scratch dir) satisfy (3) and (4)
      as well; evaluated once for every newly discovered distinct state (the reports are a function of
@@ -259,7 +262,7 @@ BOUNDS = {
                            "mixed": {"tokens": "13 + 1 glued", "line_tokens": 2, "depth": 2}},
               "spec_lines": "1 line of <= line_tokens tokens, or 2 lines of 1 token each",
               "counter_family": "6 long runs (300 IPv4 / 120 host names, ascending / descending / revisiting)",
-              "shapes_family": "9383 explicit histories of 2-4 events: spellings (every ordered pair of spellings of one IPv6 address / MAC / zero-padded IPv4), adjacent (two originals of a kind separated by one of : / , = - ( @ _ inside one token, or both glued), glue (every original x left/right literal text), channels (every ordered pair of clean_content(list) / clean_content(str) / width=True / clean_file / clean_file on netstat_-neopa on one Cleaner), exempt (no_obfuscate specs between normal ones), kw11 (11 configured keywords), second-cleaner (a second Cleaner in the same process), blank (empty lines / all-blank specs), fresh-process (second Cleaner vs a fresh interpreter)"},
+              "shapes_family": "11159 explicit histories of 1-4 events: spellings (every ordered pair of spellings of one IPv6 address / MAC / zero-padded IPv4), adjacent (two originals of a kind separated by one of : / , = - ( @ _ inside one token, or both glued), glue (every original x left/right literal text), channels (every ordered pair of clean_content(list) / clean_content(str) / width=True / clean_file / clean_file on netstat_-neopa on one Cleaner), exempt (no_obfuscate specs between normal ones), kw11 (11 configured keywords), second-cleaner (a second Cleaner in the same process), blank (empty lines / all-blank specs), fresh-process (second Cleaner vs a fresh interpreter), overlap (12 configured keywords that are a textual part of a host name / IPv4 / IPv6 original x every ordered pair of originals of the kind containing it x specs exempting nothing / keyword / the kind, both keyword positions), sysname (Cleaner built from a real InsightsConfig with the fqdn argument explicit / absent / None / '' x display_name absent / '' / outside the domain / inside the domain / equal to the FQDN x 4 answers of the socket name-resolution calls, which the harness owns)"},
     "thorough": {"families": {"ip": {"tokens": "7 + 1 glued", "line_tokens": 3, "depth": 4},
                               "host": {"tokens": "7 + case variant", "line_tokens": 3, "depth": 4},
                               "mk": {"tokens": "5 + 1 glued + 1 separator/case spelling", "line_tokens": 3, "depth": 4},
@@ -268,7 +271,7 @@ BOUNDS = {
                  "spec_lines": "1 line of <= line_tokens tokens (3-token lines over the base tokens only, without the "
                                "glued / case-variant additions), or 2 lines of 1 token each",
                  "counter_family": "6 long runs (300 IPv4 / 120 host names, ascending / descending / revisiting)",
-                 "shapes_family": "9383 explicit histories of 2-4 events: spellings (every ordered pair of spellings of one IPv6 address / MAC / zero-padded IPv4), adjacent (two originals of a kind separated by one of : / , = - ( @ _ inside one token, or both glued), glue (every original x left/right literal text), channels (every ordered pair of clean_content(list) / clean_content(str) / width=True / clean_file / clean_file on netstat_-neopa on one Cleaner), exempt (no_obfuscate specs between normal ones), kw11 (11 configured keywords), second-cleaner (a second Cleaner in the same process), blank (empty lines / all-blank specs), fresh-process (second Cleaner vs a fresh interpreter)"},
+                 "shapes_family": "11159 explicit histories of 1-4 events: spellings (every ordered pair of spellings of one IPv6 address / MAC / zero-padded IPv4), adjacent (two originals of a kind separated by one of : / , = - ( @ _ inside one token, or both glued), glue (every original x left/right literal text), channels (every ordered pair of clean_content(list) / clean_content(str) / width=True / clean_file / clean_file on netstat_-neopa on one Cleaner), exempt (no_obfuscate specs between normal ones), kw11 (11 configured keywords), second-cleaner (a second Cleaner in the same process), blank (empty lines / all-blank specs), fresh-process (second Cleaner vs a fresh interpreter), overlap (12 configured keywords that are a textual part of a host name / IPv4 / IPv6 original x every ordered pair of originals of the kind containing it x specs exempting nothing / keyword / the kind, both keyword positions), sysname (Cleaner built from a real InsightsConfig with the fqdn argument explicit / absent / None / '' x display_name absent / '' / outside the domain / inside the domain / equal to the FQDN x 4 answers of the socket name-resolution calls, which the harness owns)"},
 }
 CAP_S = {"quick": 300, "thorough": 3000}
 
@@ -288,15 +291,22 @@ RULE = ("explicit-state BFS over histories of clean_content([line..]) events on 
         "such histories are explored to depth 3 in both tiers), "
         "otherwise it is cut. On top of the BFS: 6 long counter runs and the "
         "explicit 'shapes' histories (delimiter adjacency, glue, the five entry channels, no_obfuscate specs, 11 keywords, a "
-        "second Cleaner, blank lines), each executed once through the replay entry point. A transition / case is "
+        "second Cleaner, blank lines, keywords that are part of a host name / address original, the ways a Cleaner learns the "
+        "system's own name), each executed once through the replay entry point. A transition / case is "
         "non-trivial when at least one occurrence in the event is a recurrence of an original already "
         "observed (same line, earlier line or earlier event), i.e. clause (1) compared two occurrences")
 ASSUMPTIONS = [
     "what mapping() lists determines every future of the Cleaner (argued from the code in canon(); a tree with more "
     "hidden state could make merges too coarse = possible miss, never an alarm; snapshot-vs-replay agreement is "
     "sampled every 53rd state); states are held as pickle/deepcopy snapshots of the whole live Cleaner",
-    "the order in which the obfuscators are applied is C10's subject; the alphabet contains no token that two "
-    "obfuscators compete for, so no verdict depends on it (PYTHONHASHSEED is pinned to 0 all the same)",
+    "the order in which the obfuscators are applied is C10's subject and no order is asserted here; outside the 'overlap' "
+    "group the alphabet contains no token that two obfuscators compete for; in the 'overlap' group a configured keyword is a "
+    "textual part of a host name / IPv4 / IPv6 original and only what the statement decides is demanded (one substitute per "
+    "original across specs whatever they exempt, mapping lists only what occurred); keywords inside MACs (keyword runs before "
+    "mac on the unchanged tree - C08's known finding) and keywords inside issued substitutes are excluded from the alphabet",
+    "sysname group: the system's own name is what socket.gethostname / getfqdn / gethostbyname_ex answer (all three patched "
+    "with descriptor-chosen values denoting web01.corp.test while the case runs); host-name obfuscation is enabled in every "
+    "configuration built, so an occurrence of the system's FQDN or short name in a non-exempt spec must be replaced",
     "bounded: no counterexample within the stated alphabet, line width, spec shape and history depth, nothing more",
     "an unreplaced and unlisted original (host outside the domain, guarded MAC) is outside injectivity and reporting",
 ]
@@ -306,7 +316,8 @@ LEVEL_TEXT = ("Every history of clean_content calls up to depth 3 (quick) / 4 (t
               "symbol per collision class visible in the code (prefix-related IPs, originals equal to issuable "
               "substitutes, suffix-related host names, short/FQDN system name, MAC and host-name case variants, originals with a word "
               "character glued to their right, the guarded "
-              "already-obfuscated MAC) is executed against the real Cleaner; consistency, injectivity and the "
+              "already-obfuscated MAC) is executed against the real Cleaner; on top, explicit short histories cover keywords that are "
+              "part of a host name / address and every way the Cleaner is told (or has to resolve) the system's own name; consistency, injectivity and the "
               "mapping()/facts/CSV reports are checked after every event against what was positionally observed. "
               "Model checking is the right level because the property quantifies over histories through a stateful "
               "object and the reachable table states are few once canonicalised.")
